@@ -101,6 +101,7 @@ def main(tier, seed):
                 continue
             X = [list(map(float, r)) for r in Xi]
             arr = np.array(Xi, dtype=dt)
+            exact_sq = [[float(sum((a - b) ** 2 for a, b in zip(Xi[p], Xi[q]))) for q in range(n + m)] for p in range(n + m)]
             stats["narrow_int_groups"] = stats.get("narrow_int_groups", 0) + 1
         else:
             X, D0 = tie_free_points(rng, n, m, "squared_euclidean")
@@ -119,6 +120,15 @@ def main(tier, seed):
                 runs[metric] = ("error", repr(ex)); continue
             runs[metric] = (s, p)
         base = FAMILY[1]   # squared_euclidean
+        if arr is not None:
+            # integer data: the exact squared distances are known, and every family member must order the pairs as they do
+            want_rank = rank_matrix(exact_sq, n, n + m)
+            for mt in FAMILY:
+                if ranks[mt] != want_rank and runs[mt][0] != "error":
+                    nviol += 1
+                    if nviol <= 3:
+                        rep.violation("%s is not a strictly increasing transform of the squared Euclidean distance on %s data" % (mt, arr.dtype),
+                                      dict(X=Xi, dtype=str(arr.dtype), labels=labels, m=m, metric=mt), key="rescale")
         keep = [mt for mt in FAMILY if ranks[mt] == ranks[base]]
         stats["rescale_discarded_ties"] += len(FAMILY) - len(keep)    # the transform merged two doubles: a tie appeared
         stats["rescale_groups"] += 1
